@@ -19,7 +19,7 @@ EXPLANATION = (
     "(`<` / `>` strict, point count `>=`), the compared quantity (ego-frame x, y, BEV distance – R-FRAME: raw position only under "
     "frame_id == BASE_LINK, otherwise transforms.transform((frame_id, BASE_LINK), position)), and the bound (per-label lookup with the "
     "object's own label in that very list, or mean / 0.0 / 0 when relaxed) – each bound occurs only on the permissive side, so widening "
-    "never removes a kept object; (3) get_label_threshold's lookup table; Label.contains / contains_any; (4) filter idiom: both filters "
+    "never removes a kept object; (3) get_label_threshold's lookup table - the bound of a label is the entry at the label's (first) index in target_labels; a dict built from zip(target_labels, thresholds), where the last duplicate wins, is reported; Label.contains / contains_any; (4) filter idiom: both filters "
     "append the loop element itself iff the predicate holds, in order, into a fresh list; the predicate and the filters mutate nothing "
     "(mutation summaries) – hence order-preserving sub-list and idempotence. Does not decide: the truth of the opaque atoms on concrete "
     "objects."
